@@ -30,7 +30,7 @@ def make_case(seed, idx, tier):
             "sprout": rng.choice(["simple", "nbc"]),
             "stacks": False,
             "shared": False,
-            "fams": ["rastrigin", "funnel", "sphere", "linear", "face", "absv"],
+            "fams": ["rastrigin", "funnel", "sphere", "linear", "face", "absv", "plateau", "constant", "plateau"],
             "boxes": ["sym", "asym", "decimal"],
             "seeded_p": 1.0,
             "entry": "tree",
@@ -78,9 +78,17 @@ def _problems(dim, table):
 
     bounds = np.array([[-6.0, 6.0]] * dim)
 
-    def g(x):  # smooth deterministic function for the engines that evaluate new points
-        xs = np.asarray(x, dtype=np.float64).tolist()
-        return float(sum((v - 0.3) ** 2 for v in xs))
+    if table == "plateau":
+
+        def g(x):  # terraced objective: many exact ties among distinct individuals
+            xs = np.asarray(x, dtype=np.float64).tolist()
+            return float(sum(float(int(abs(v))) ** 2 for v in xs))
+
+    else:
+
+        def g(x):  # smooth deterministic function for the engines that evaluate new points
+            xs = np.asarray(x, dtype=np.float64).tolist()
+            return float(sum((v - 0.3) ** 2 for v in xs))
 
     pmax = FunctionProblem(lambda x: -g(x), bounds, True)  # (f = -g, maximise)
     pmin = FunctionProblem(lambda x: g(x), bounds, False)  # (-f = g, minimise)
@@ -103,7 +111,7 @@ def run_decisions(desc):
     g = [float.fromhex(h) for h in desc["fits_hex"]]  # minimisation-form values
     n, dim = len(g), len(genomes[0])
     ties = desc["ties"]
-    pmax, pmin = _problems(dim, None)
+    pmax, pmin = _problems(dim, "plateau" if ties != "none" else None)
     # formulation A: (f = -g, maximise); formulation B: (-f = g, minimise)
     A = [Individual(genomes[i].copy(), pmax, -g[i]) for i in range(n)]
     B = [Individual(genomes[i].copy(), pmin, g[i]) for i in range(n)]
@@ -317,6 +325,10 @@ def run_twin(desc):
         ca.violation("C13", "whole-run twin: same genomes but fitness values are not mirrored", {})
     elif _shape(ca.tree) != _shape(cb.tree):
         ca.violation("C13", "whole-run twin builds different trees", {"max": _shape(ca.tree)[:6], "min": _shape(cb.tree)[:6]})
+    elif _mirrored(ca.tree, -1.0) != _mirrored(cb.tree, 1.0):
+        ma, mb = _mirrored(ca.tree, -1.0), _mirrored(cb.tree, 1.0)
+        k = next(i for i, (p, q) in enumerate(zip(ma, mb)) if p != q)
+        ca.violation("C13", f"whole-run twin: stored individuals are not mirrored ({ma[k][2]})", {"deme": ma[k][0], "what": ma[k][1], "max_side": str(ma[k][3])[:80], "min_side": str(mb[k][3])[:80]})
     else:
         cov["run_twins_identical"] += 1
         if len({round(v, 12) for v in yb}) >= 3:
@@ -324,6 +336,24 @@ def run_twin(desc):
     res["violations"] = ca.violations
     res["sample"]["twin"] = {"evaluations_max": len(xa), "evaluations_min": len(xb)}
     return res
+
+
+def _mirrored(tree, sign):
+    """Everything stored, with fitness brought to minimisation form: must be identical for the two formulations."""
+    from ..harness import canon
+
+    out = []
+    for lvl in tree.levels:
+        for d in lvl:
+            cname = type(d).__name__
+            for gi, gen_ in enumerate(d.history):
+                out.append((d.id, f"generation {gi}", cname, [(canon(i.genome).tobytes(), sign * float(i.fitness)) for i in gen_]))
+            b = d.best_individual
+            if b is not None:
+                out.append((d.id, "best_individual", cname, (canon(b.genome).tobytes(), sign * float(b.fitness))))
+    tb = tree.best_individual
+    out.append(("tree", "best_individual", "DemeTree", (canon(tb.genome).tobytes(), sign * float(tb.fitness))))
+    return out
 
 
 def _first_owner(ctx, k):
